@@ -1,0 +1,8 @@
+//go:build !verif
+
+// Package verifhook is an instrumentation point for external runtime monitors.
+// Without the "verif" build tag every call is an empty function that the compiler inlines.
+package verifhook
+
+// At marks an instrumentation point; it does nothing in normal builds.
+func At(point string, arg interface{}) {}
